@@ -216,7 +216,10 @@ def handleTestTr (id : String) (args : List String) : String :=
       let mA := applyModel o [] d p
       let mB := applyModel o [] d p2
       let corr := sameObs mA a && sameObs mB b
+      -- repeated member names are outside every property (C15.counterexample_dup shows the clause false there)
+      let dupFree : Bool := ((parseValueOf d).map Value.noDup).getD true && ((parseValueOf p).map Value.noDup).getD true
       let v15 : Verdict :=
+        if !dupFree then .unspec else
         match a with
         | .ok x => (match b with
                     | .ok y => if x = y then .ok else .viol "passing-test-changed-output"
